@@ -13,6 +13,7 @@ import SedpackDriver.Codec
 import SedpackDriver.Writer
 import SedpackDriver.Reg
 import SedpackDriver.HashConc
+import SedpackDriver.Par
 open Lean
 namespace Sedpack.Drv
 
@@ -40,6 +41,7 @@ def dispatch (m : String) (j : Json) : Except String Json :=
   | "writer" => writerJ j
   | "reg" => regJ j
   | "hashconc" => hashConcJ j
+  | "parval" => parValJ j
   | _ => .error s!"unknown model {m}"
 
 end Sedpack.Drv
